@@ -320,7 +320,8 @@ class World:
             return self.skip('empty-pool')
         fmt = C.fmt_of(x)
         grow = op['grow']
-        x.resize(fmt[0], min(fmt[1] + grow, 52), fmt[2] + (op['dfrac'] if fmt[2] + op['dfrac'] <= min(fmt[1] + grow, 52) + 8 else 0))
+        sg = (not fmt[0]) if op.get('flip') else fmt[0]
+        x.resize(sg, min(fmt[1] + grow, 52), fmt[2] + (op['dfrac'] if fmt[2] + op['dfrac'] <= min(fmt[1] + grow, 52) + 8 else 0))
         check_object(x, 'resize_inplace')
 
     def op_reduce(self, op):
@@ -518,12 +519,14 @@ def op_strategies():
                                           'mask': st.one_of(st.none(), st.integers(-(1 << 20), 1 << 20))}),
         'index': st.fixed_dictionaries({'i': IDX, 'a': IDX, 'b': IDX, 'slice': st.booleans()}),
         'view': st.fixed_dictionaries({'i': IDX, 'how': st.sampled_from(['T', 'copy', 'flatten'])}),
-        'resize_inplace': st.fixed_dictionaries({'i': IDX, 'grow': st.integers(0, 8), 'dfrac': st.sampled_from([0, 0, 0, 1, -1])}),
+        'resize_inplace': st.fixed_dictionaries({'i': IDX, 'grow': st.sampled_from([0, 0, 0, 1, 2, 4, 8]), 'dfrac': st.sampled_from([0, 0, 0, 1, -1]),
+                                                 'flip': st.booleans()}),
         'reduce': st.fixed_dictionaries({'i': IDX, 'j': IDX, 'name': st.sampled_from(['sum', 'cumsum', 'max', 'min', 'sort', 'transpose', 'clip', 'diagonal', 'trace', 'dot', 'prod', 'cumprod']),
                                          'axis': st.one_of(st.none(), st.integers(0, 1)), 'numpy': st.booleans()}),
     }
     follow = st.lists(st.one_of(
-        st.fixed_dictionaries({'op': st.just('resize_inplace'), 'grow': st.integers(0, 8), 'dfrac': st.sampled_from([0, 0, 0, 1, -1])}),
+        st.fixed_dictionaries({'op': st.just('resize_inplace'), 'grow': st.sampled_from([0, 0, 1, 2, 4, 8]), 'dfrac': st.sampled_from([0, 0, 0, 1, -1]),
+                               'flip': st.booleans()}),
         st.fixed_dictionaries({'op': st.just('write'), 'route': st.sampled_from(['call', 'set_val', 'setitem', 'setitem']), 'rel': REL, 'idx': IDX}),
         st.fixed_dictionaries({'op': st.just('shift'), 'n': st.integers(0, 4), 'dir': st.sampled_from(['l', 'r']), 'shifting': st.sampled_from(['trunc', 'keep'])})),
         max_size=3)
